@@ -306,7 +306,7 @@ func cmdCheck(o options, prop string) int {
 			if it.sweep && it.fi.Spec == nil {
 				// sweep: safety classes only
 				switch ob.Class {
-				case "panic", "vacuity", "guarded-by", "pre":
+				case "panic", "vacuity", "guarded-by", "pre", "atomic":
 				default:
 					continue
 				}
@@ -386,7 +386,7 @@ func cmdCheck(o options, prop string) int {
 			"model": r.Model, "tried": r.Tried, "replayed_on_real_code": false,
 		}
 		suffix := " no-failing-input-found"
-		if r.Status == "sat" && r.Model != nil {
+		if r.Model != nil {
 			if ok, out := tryReplay(o, w, ob, r.Model); ok {
 				rp["replayed_on_real_code"] = true
 				rp["replay_output"] = out
